@@ -577,8 +577,21 @@ fn assign_names(query: SqlQuery, ctx: &mut Context) -> SqlQuery {
     let decls = ctx.anchor.table_decls.values_mut();
     let mut names = HashSet::new();
     for decl in decls.sorted_by_key(|d| d.id.get()) {
+        // verification hook: what reaches the regenerate-until-unused loop
+        #[cfg(prqlc_verif)]
+        let verif_old = decl.name.as_ref().map(|i| i.to_string());
         while decl.name.is_none() || names.contains(decl.name.as_ref().unwrap()) {
             decl.name = Some(Ident::from_name(gen_name()));
+        }
+        #[cfg(prqlc_verif)]
+        {
+            let mut used: Vec<String> = names.iter().map(|i: &Ident| i.to_string()).collect();
+            used.sort();
+            log::debug!(
+                "verif:namegen {}",
+                serde_json::json!({"site": "assign_names", "old": verif_old, "used": used,
+                                   "new": decl.name.as_ref().map(|i| i.to_string())})
+            );
         }
         names.insert(decl.name.clone().unwrap());
     }
@@ -648,6 +661,10 @@ impl PqMapper<RelationExpr, RelationExpr, (), ()> for RelVarNameAssigner<'_> {
             };
         }
 
+        // verification hook: what reaches the regenerate-until-unused loop
+        #[cfg(prqlc_verif)]
+        let verif_old = name.clone();
+
         // make sure it is not already present in current query
         while name
             .as_ref()
@@ -661,6 +678,16 @@ impl PqMapper<RelationExpr, RelationExpr, (), ()> for RelVarNameAssigner<'_> {
                     break candidate;
                 }
             });
+        }
+
+        #[cfg(prqlc_verif)]
+        {
+            let mut used: Vec<&String> = self.relation_instance_names.iter().collect();
+            used.sort();
+            log::debug!(
+                "verif:namegen {}",
+                serde_json::json!({"site": "relvar", "old": verif_old, "used": used, "new": name.clone()})
+            );
         }
 
         // mark name as used
